@@ -1071,6 +1071,8 @@ PROP_KINDS = {
             "cycle_order_strict", "run_stopped", "build_error", "stale_read", "wake_lost"},
     # C02 names "work inside a nested child" among the wake-ups a simulation run must honour
     "C02": {"wake_lost", "wake_lost_after_captured_error", "child_early", "child_clock_ahead", "build_error"},
+    # C18: a wake-up requested through the node scheduler survives an exception captured at the node
+    "C18": {"wake_lost", "build_error"},
     "C09": {"nested_differs", "child_early", "child_clock_ahead", "child_outside_owner", "cycle_order", "node_outside_cycle",
             "wake_lost", "stale_read", "run_stopped", "trace_shape", "build_error", "phantom_tick_forwarding_rebind", "phantom_tick",
             "evaluated_twice", "pause_not_resumed", "poke_lost", "stale_clamp_depth2", "sampled_at_root_start_nested_only"},
